@@ -12,12 +12,13 @@ def make(tier):
     P = Plan('C18', level='proof', design_ref='DESIGN.md section 5 C18')
     P.meta += ['a range is enumerated by an iterator that starts at begin(), steps by ++ and stops when it compares equal to end(): begin/end/step/equality are under contract, so the enumerated sequence is b, b+1, ..., max(b,e)-1 (int ranges), the closed enumerator sub-range (enum ranges) by induction over the step',
                'cyclic_iterator: increment/decrement are the +-1 steps modulo the boundary length (contracts); advance(d) is characterised as the unique position congruent to k+d inside the boundary, which is what |d| single steps produce (induction over d)']
-    P.not_decided += ['iterator::range / adapt_range / range::size thin wrappers', 'spiral range: decided only up to the stated distance bound (bounded check), no inductive invariant for arbitrary distances']
+    P.not_decided += ['spiral range: decided only up to the stated distance bound (bounded check), no inductive invariant for arbitrary distances']
     make_int(P)
     make_enum(P)
     make_cyclic(P)
     make_neighbors(P)
     make_spiral(P, tier)
+    make_wrap(P)
     return P
 
 
@@ -219,3 +220,48 @@ SPIRAL_LEMMA(0) SPIRAL_LEMMA(1) SPIRAL_LEMMA(2) SPIRAL_LEMMA(3) SPIRAL_LEMMA(4)
         u.lemma('h_spiral_%d' % d, cls='B', unwind=n + 3, bound='Manhattan distance %d (%d points), origin symbolic in (-10^6, 10^6)^2' % (d, n), backends=['sat', 'cvc5'], native=False,
                 tier='quick' if d <= 3 else 'thorough', timeout=900,
                 what='spiral range of distance %d from an arbitrary origin: every lattice point within the distance exactly once (count + distinctness), in rings of non-decreasing distance, origin first' % d)
+
+
+def make_wrap(P):
+    """iterator::range / make_range / adapt_range / range::size, empty, singular, begin, end; the operators iterator::base derives (it++, it--, it + d, it - d, it[d]) through cyclic_iterator"""
+    shim = """#include <cstddef>
+#include <fcppt/cyclic_iterator_impl.hpp>
+#include <fcppt/iterator/range_impl.hpp>
+#include <fcppt/iterator/make_range.hpp>
+#include <fcppt/iterator/adapt_range.hpp>
+#include <fcppt/range/size.hpp>
+#include <fcppt/range/empty.hpp>
+#include <fcppt/range/begin.hpp>
+#include <fcppt/range/end.hpp>
+#include <fcppt/range/singular.hpp>
+static int arr[64];
+struct span { int *b; std::size_t n; using iterator = int *; using const_iterator = int const *; using value_type = int; iterator begin() { return b; } iterator end() { return b + n; } const_iterator begin() const { return b; } const_iterator end() const { return b + n; } };
+using cit = fcppt::cyclic_iterator<int *>;
+extern "C" {
+void vf_iter_range(std::size_t f, std::size_t n, long *o){ fcppt::iterator::range<int *> const r{arr + f, arr + f + n}; auto const m = fcppt::iterator::make_range(arr + f, arr + f + n);
+  o[0] = r.begin() - arr; o[1] = r.end() - arr; o[2] = static_cast<long>(fcppt::range::size(r)); o[3] = m.begin() - arr; o[4] = m.end() - arr; o[5] = fcppt::range::empty(r) ? 1 : 0; o[6] = fcppt::range::begin(r) - arr; o[7] = fcppt::range::end(r) - arr; }
+void vf_adapt_range(std::size_t f, std::size_t n, long *o){ span s{arr + f, n}; auto const r = fcppt::iterator::adapt_range(s); o[0] = r.begin() - arr; o[1] = r.end() - arr; o[2] = static_cast<long>(fcppt::range::size(s)); o[3] = fcppt::range::empty(s) ? 1 : 0; }
+void vf_singular(std::size_t f, std::size_t n, long *o){ fcppt::iterator::range<int *> const r{arr + f, arr + f + n}; o[0] = fcppt::range::singular(r) ? 1 : 0; }
+void vf_cyc_ops_5(std::size_t f, std::size_t k, long d, long *o){ cit const base{arr + f + k, cit::boundary{arr + f, arr + f + 5}};
+  { cit it{base}; cit const old{it++}; o[0] = old.get() - (arr + f); o[1] = it.get() - (arr + f); }
+  { cit it{base}; cit const old{it--}; o[2] = old.get() - (arr + f); o[3] = it.get() - (arr + f); }
+  { cit const p{base + d}; cit const m{base - d}; o[4] = p.get() - (arr + f); o[5] = m.get() - (arr + f); o[6] = &base[d] - (arr + f); }
+  { cit it{base}; --it; o[7] = it.get() - (arr + f); } }
+}
+"""
+    fr = '__CPROVER_is_fresh(o, 64)'
+    spec = 'function vf_iter_range\n  __CPROVER_requires(f <= 64 && n <= 64 - f && %s)\n  __CPROVER_assigns(__CPROVER_object_whole(o))\n' % fr
+    spec += '  __CPROVER_ensures(o[0] == f && o[1] == f + n && o[2] == n && o[3] == f && o[4] == f + n && o[5] == (n == 0) && o[6] == f && o[7] == f + n)\n'
+    spec += 'function vf_adapt_range\n  __CPROVER_requires(f <= 64 && n <= 64 - f && %s)\n  __CPROVER_assigns(__CPROVER_object_whole(o))\n  __CPROVER_ensures(o[0] == f && o[1] == f + n && o[2] == n && o[3] == (n == 0))\n' % fr
+    spec += 'function vf_singular\n  __CPROVER_requires(f <= 64 && n <= 64 - f && %s)\n  __CPROVER_assigns(__CPROVER_object_whole(o))\n  __CPROVER_ensures(o[0] == (n == 1))\n' % fr
+    spec += 'function vf_cyc_ops_5\n  __CPROVER_requires(k < 5 && f <= 59 && (i64)d >= -20 && (i64)d <= 20 && %s)\n  __CPROVER_assigns(__CPROVER_object_whole(o))\n' % fr
+    spec += '  __CPROVER_ensures(o[0] == k && o[1] == (k + 1) % 5 && o[2] == k && o[3] == (k + 4) % 5 && o[7] == (k + 4) % 5)\n'
+    spec += '  __CPROVER_ensures((i64)o[4] >= 0 && (i64)o[4] < 5 && ((i64)o[4] - (i64)k - (i64)d) % 5 == 0 && (i64)o[5] >= 0 && (i64)o[5] < 5 && ((i64)o[5] - (i64)k + (i64)d) % 5 == 0 && o[6] == o[4])\n'
+    P.generated['wrap.cpp'] = shim
+    P.generated['wrap.spec'] = spec
+    u = P.unit('wrap', 'wrap.cpp', specs=['wrap.spec'], inline=True)
+    u.contract('vf_iter_range', cls='P', backends=['sat', 'cvc5'], what='iterator::range / make_range hold exactly the given begin and end; range::size is their distance, range::empty / begin / end agree')
+    u.contract('vf_adapt_range', cls='P', backends=['sat', 'cvc5'], what='adapt_range of a container is [begin(), end()); range::size / empty of the container')
+    u.contract('vf_singular', cls='P', backends=['sat', 'cvc5'], what='range::singular holds exactly for ranges of one element')
+    u.contract('vf_cyc_ops_5', cls='B', bound='boundary of length 5 at every start offset inside a static array of 64 elements, |d| <= 20', backends=['sat', 'cvc5', 'z3'], timeout=900,
+               what='operators derived by iterator::base on a random-access iterator (cyclic_iterator): it++ / it-- return the old position and step once, --it, it + d, it - d and it[d] are d steps forward / backward')
